@@ -44,7 +44,7 @@ extern _Bool cqv_alloc_failed;       /* some arena request (size != 0) returned 
 
 /* ---- C13 writer side: ghost stack of open structs (maintained by the thrift_write_* bodies below) ---- */
 #define CQV_WMAX 12
-struct cqv_wrec { int kind; int last; unsigned seen; int elem; };
+struct cqv_wrec { int kind; int last; unsigned seen; int elem; int lkind; };
 extern struct cqv_wrec cqv_w[CQV_WMAX];   /* one record per open struct: kind, last field id, set of ids written, open list elem type */
 extern int cqv_w_left[CQV_WMAX];          /* elements still owed to the list opened at that level */
 extern int cqv_w_depth;                   /* number of open structs */
@@ -52,8 +52,10 @@ extern int cqv_w_pend;                    /* wire type of the value owed to the 
 extern int cqv_w_next;                    /* kind of the struct that may be opened next (0 = none) */
 extern int cqv_w_root;                    /* kind of the outermost struct (set by the harness) */
 /* a write_<struct> helper is called when a struct of kind K is owed (as a field value or as a list element) */
-#define CQV_W_REQ(K) (cqv_w_depth >= 1 && cqv_w_depth <= 6 && cqv_w_next == (K) && \
-                      (cqv_w_pend == W_STRUCT || (cqv_w_pend == 0 && cqv_w_left[cqv_w_depth - 1] > 0)))
+#define CQV_W_REQ(K, D) (cqv_w_depth >= 1 && cqv_w_depth <= (D) && cqv_w_next == (K) && \
+                      ((cqv_w_pend == W_STRUCT && cqv_w_left[cqv_w_depth - 1] == 0) || \
+                       (cqv_w_pend == 0 && cqv_w_left[cqv_w_depth - 1] > 0 && cqv_w[cqv_w_depth - 1].elem == W_STRUCT && \
+                        cqv_w[cqv_w_depth - 1].lkind == (K))))
 #define CQV_W_ASSIGNS(e) cqv_w_depth, cqv_w_pend, cqv_w_next, cqv_w_left[cqv_w_depth - 1], \
                       __CPROVER_object_from(&cqv_w[cqv_w_depth]), __CPROVER_object_from(&cqv_w_left[cqv_w_depth]), (e)->status
 /* ... and returns with exactly that one struct written and closed; records of the enclosing structs untouched (frame) */
@@ -221,11 +223,9 @@ void thrift_write_i32(thrift_encoder_t* enc, int32_t value) { cqv_w_value(enc, W
 void thrift_write_i64(thrift_encoder_t* enc, int64_t value) { cqv_w_value(enc, W_I64); }
 void thrift_write_binary(thrift_encoder_t* enc, const uint8_t* data, int32_t length) {
   __CPROVER_assert(length >= 0, "C13 writer: binary length is non-negative");
-  __CPROVER_precondition(length <= 0 || data == NULL || __CPROVER_r_ok(data, (size_t)length), "binary payload readable");
   cqv_w_value(enc, W_BIN);
 }
 void thrift_write_string(thrift_encoder_t* enc, const char* str) {
-  __CPROVER_precondition(str == NULL || __CPROVER_r_ok(str, 1), "string readable");
   cqv_w_value(enc, W_BIN);
 }
 void thrift_write_field_header(thrift_encoder_t* enc, int type, int16_t field_id) {
@@ -240,7 +240,7 @@ void thrift_write_field_header(thrift_encoder_t* enc, int type, int16_t field_id
   __CPROVER_assert(field_id > r->last, "C13 writer: field ids strictly ascending within a struct");
   r->last = field_id;
   if (field_id >= 0 && field_id < 32) r->seen |= 1u << field_id;
-  r->elem = 0;
+  r->elem = 0; r->lkind = 0;
   cqv_w_pend = (type == 1 || type == 2) ? 0 : type;      /* bool value lives in the header */
   cqv_w_next = (type == W_STRUCT) ? cqv_pt_child(r->kind, field_id) : 0;
 }
@@ -253,8 +253,9 @@ void thrift_write_list_begin(thrift_encoder_t* enc, int elem_type, int32_t count
   __CPROVER_assert(elem_type == cqv_pt_elem(r->kind, r->last), "C13 writer: list element type is the one parquet.thrift declares");
   cqv_w_pend = 0;
   r->elem = elem_type;
+  r->lkind = (elem_type == W_STRUCT) ? cqv_pt_child(r->kind, r->last) : 0;
   cqv_w_left[cqv_w_depth - 1] = count;
-  cqv_w_next = (elem_type == W_STRUCT && count > 0) ? cqv_pt_child(r->kind, r->last) : 0;
+  cqv_w_next = (count > 0) ? r->lkind : 0;
 }
 void thrift_write_struct_begin(thrift_encoder_t* enc) {
   cqv_w_fail(enc);
@@ -269,7 +270,7 @@ void thrift_write_struct_begin(thrift_encoder_t* enc) {
       cqv_w_left[cqv_w_depth - 1]--;
     }
   }
-  cqv_w[cqv_w_depth].kind = cqv_w_next; cqv_w[cqv_w_depth].last = 0; cqv_w[cqv_w_depth].seen = 0; cqv_w[cqv_w_depth].elem = 0;
+  cqv_w[cqv_w_depth].kind = cqv_w_next; cqv_w[cqv_w_depth].last = 0; cqv_w[cqv_w_depth].seen = 0; cqv_w[cqv_w_depth].elem = 0; cqv_w[cqv_w_depth].lkind = 0;
   cqv_w_left[cqv_w_depth] = 0;
   cqv_w_depth++;
   cqv_w_next = 0;
@@ -286,7 +287,7 @@ void thrift_write_struct_end(thrift_encoder_t* enc) {
     __CPROVER_assert(r->seen != 0 && (r->seen & (r->seen - 1)) == 0, "C13 writer: exactly one member of a union is set");
   cqv_w_depth--;
   if (cqv_w_depth >= 1 && cqv_w_left[cqv_w_depth - 1] > 0 && cqv_w[cqv_w_depth - 1].elem == W_STRUCT)
-    cqv_w_next = cqv_pt_child(cqv_w[cqv_w_depth - 1].kind, cqv_w[cqv_w_depth - 1].last);
+    cqv_w_next = cqv_w[cqv_w_depth - 1].lkind;
   else
     cqv_w_next = 0;
 }
